@@ -985,6 +985,10 @@ func (a *Act) applyContract(st *State, callee *ssa.Function, fc *FuncContract, a
 	vars := a.bindContract(fc, st, args, nil, sig, true)
 	e := &specEnv{a: nil, tr: tr, pkg: fc.pkg, st: pre, old: pre, vars: vars, errs: &errs}
 	for _, c := range fc.requires {
+		if c.assumed() {
+			tr.usedAssumed[fc.name+" requires (not checked at call sites): "+c.text] = true
+			continue
+		}
 		g := e.evalBool(c.expr)
 		loc, src := a.srcLine(pos)
 		fname := fnName(a.fn)
@@ -1004,6 +1008,29 @@ func (a *Act) applyContract(st *State, callee *ssa.Function, fc *FuncContract, a
 			caller = append(caller, re.eval(d.expr).t)
 		}
 		a.obligeNamed(st, "decreases", "call "+fc.name, lexLess(callee, caller))
+	}
+	if tr.lockMode && fc.locksRank != nil && a.parent == nil {
+		// lock order: a lock may be taken while another is held only if it ranks strictly lower
+		callee := e.eval(fc.locksRank.expr).t
+		rc := tr.rootAct.contract
+		if rc != nil && rc.holds == nil && rc.locksRank != nil {
+			// the root takes a lock of its own rank: a nested acquisition must rank strictly lower
+			re := &specEnv{a: tr.rootAct, tr: tr, pkg: rc.pkg, st: tr.rootAct.entryState, old: tr.rootAct.entryState, errs: &errs,
+				vars: tr.rootAct.bindContract(rc, st, tr.rootAct.args, nil, tr.root.Signature, true)}
+			own := re.eval(rc.locksRank.expr).t
+			now := tr.read(tr.heapOf(st, tr.lockCount()))
+			entry := tr.read(tr.heapOf(tr.rootAct.entryState, tr.lockCount()))
+			a.obligeNamed(st, "lock/order", "call "+fc.name, Or(Eq(now, entry), app("<", callee, own)))
+		} else if rc != nil && rc.holds != nil {
+			re := &specEnv{a: tr.rootAct, tr: tr, pkg: rc.pkg, st: tr.rootAct.entryState, old: tr.rootAct.entryState, errs: &errs,
+				vars: tr.rootAct.bindContract(rc, st, tr.rootAct.args, nil, tr.root.Signature, true)}
+			held := re.eval(rc.holds.expr).t
+			a.obligeNamed(st, "lock/order", "call "+fc.name, app("<", callee, held))
+		} else {
+			now := tr.read(tr.heapOf(st, tr.lockCount()))
+			entry := tr.read(tr.heapOf(tr.rootAct.entryState, tr.lockCount()))
+			a.obligeNamed(st, "lock/order", "call "+fc.name+" (no lock of this function may be held)", Eq(now, entry))
+		}
 	}
 	if fc.panics == "may" {
 		ok := tr.freshConst("nopanic_"+lastName(fc.name), "Bool")
@@ -1101,6 +1128,8 @@ func (a *Act) frameForCall(st *State, fc *FuncContract, vars map[string]specVal,
 			return prev
 		case strings.HasPrefix(cn, "ghost:lock") && !listed[cn]:
 			return prev
+		case immutableCells[cn] && !listed[cn]:
+			return tr.heapFrame(prev, keepOld, "call_"+cn)
 		case preserved[cn] && len(c.keySorts) > 0:
 			return tr.heapFrame(prev, keepOld, "call_"+cn)
 		case preserved[cn]:
